@@ -239,10 +239,11 @@ def run_part(binpath, part, tier, seed, prop, tmpdir):
                 oc = open_cases[-1]
                 stderr_text = open(pr["err"], errors="replace").read()
                 kind, sig, excerpt = classify_crash(stderr_text)
-                if kind == "inconclusive" and rc in (-9, 137) and not stderr_text.strip():
-                    # killed from outside without a word (the kernel's out-of-memory killer on a loaded machine):
-                    # says nothing about the case; retried like a runtime crash, reported in the evidence
-                    kind, sig = "toolchain", "worker-killed-by-signal-9"
+                if kind == "inconclusive" and not stderr_text.strip():
+                    # the process went away without a word (killed from outside, e.g. by the kernel's out-of-memory
+                    # killer on a loaded machine; a Go program that dies on its own always says why): says nothing
+                    # about the case; retried like a runtime crash, reported in the evidence with its exit status
+                    kind, sig = "toolchain", f"worker-vanished-silently rc={rc}"
                 if kind == "toolchain":
                     # retry the same case (twice); a case that keeps crashing the runtime is skipped and reported
                     retries = pr.get("retries", {})
